@@ -5,7 +5,7 @@
 From Coq Require Import String.
 From Coq Require Import List Ascii ZArith Bool.
 From CGV Require Import Base.PyBase Base.PyVal Base.NxGraph Dialect.DialectImpl Reader.ReaderImpl Reader.Grammar
-     Reader.ReaderCheck Reader.Lin Reader.ReaderSim Reader.ReaderMult Reader.ReaderAst Reader.ReaderWf Reader.ReaderRing
+     Reader.ReaderCheck Reader.Lin Reader.ReaderSim Reader.ReaderMult Reader.ReaderAst Reader.ReaderWf Reader.ReaderRing Reader.ReaderEnd
      Gen.ReaderEnumGen Reader.ReaderSmall.
 Import ListNotations.
 Open Scope Z_scope.
@@ -39,16 +39,16 @@ Proof.
   vm_compute. repeat split; discriminate.
 Qed.
 
-(** UNBOUNDED, partial (C04_partial).  For every flat string of the grammar (Reader/Lin.v: chains, node
+(** UNBOUNDED, partial.  For every flat string of the grammar (Reader/Lin.v: chains, node
     multipliers without a following symbol, nested branches in which no node closes two branches, every
     bond-symbol position, single-digit and %nn ring bonds with symbols on the opening marker; strings in
     braces) the reader model returns EXACTLY what the token machine denotes: the same graph with the same
     node and edge iteration orders, or the same error (dangling ring, duplicate edge, annotation errors).
-    Missing from the full statement: the defect classes (refuted below) and texts without braces. *)
+    Missing from the full statement: the defect classes (refuted below). *)
 Theorem C04_flat_strings : forall fo l, lins_ok fo l = true ->
   read_cgsmiles fo ("{"%char :: lins_str l ++ ["}"%char]) = denote_lin fo l.
 Proof. exact reader_sim_lin. Qed.
-Theorem C04_partial : forall fo a, flat_ok fo a = true -> read_cgsmiles fo (print true a) = denote fo a.
+Theorem C04_partial_flat : forall fo a, flat_ok fo a = true -> read_cgsmiles fo (print true a) = denote fo a.
 Proof. exact reader_sim_ast. Qed.
 (** THE HEADLINE, UNBOUNDED: for every base-graph string of the documented grammar (well-formed AST, printed
     in braces, node multipliers allowed) that lies outside the defect classes double_close and nodemult_sym
@@ -58,6 +58,12 @@ Theorem C04_partial_wf : forall fo a, wf fo a = true -> has_branch_mult a = fals
   cls_double_close a = false -> cls_nodemult_sym a = false ->
   read_cgsmiles fo (print true a) = denote fo a.
 Proof. intros fo a H1 H2 H3 H4. apply reader_sim_ast. now apply flat_ok_of_wf. Qed.
+(** THE SAME FOR BOTH KINDS OF TEXT (base graphs in braces, coarse fragment texts without), with the defect
+    classes as the check numbers them: class_C04 = 0 means outside double_close, pct_at_end, nodemult_sym *)
+Theorem C04_partial : forall fo braces a, wf fo a = true -> has_branch_mult a = false -> class_C04 braces a = 0%nat ->
+  read_cgsmiles fo (print braces a) = denote fo a.
+Proof. exact reader_sim_C04. Qed.
+
 (** the ring table is independent of the branch and multiplier logic (used by C20): a graph is only
     returned when the marker trace of the text ends empty, whatever else the text contains *)
 Theorem C04_ring_table_invariant : forall fo s g, read_cgsmiles fo s = Ok g -> marker_trace s = Ok [].
@@ -88,6 +94,7 @@ Print Assumptions C04_partial_wf.
 Print Assumptions C04_ring_table_invariant.
 Print Assumptions C04_flat_strings.
 Print Assumptions C04_partial.
+Print Assumptions C04_partial_flat.
 Print Assumptions C04_small.
 Print Assumptions C04_refuted_double_close.
 Print Assumptions C04_refuted_pct_at_end.
